@@ -52,20 +52,22 @@ type Witness struct {
 }
 
 type PathResult struct {
-	Status     string // ok | panic | infeasible | bound | unsupported | deadlock | assume
-	Msg        string
-	Decisions  []int64
-	NewWork    [][]int64
-	Steps      int64
-	Violations []Violation
-	Known      []Violation
-	Discharged int // assertion obligations proven (unsat)
-	Trivial    int // assertion obligations true on a concrete condition
-	UnknownQ   int // assertion queries that came back unknown
-	Reach      []string
-	Witness    *Witness
-	NDraws     int
-	Infeasible int // decision alternatives proven infeasible
+	Status        string // ok | panic | infeasible | bound | unsupported | deadlock | assume
+	Msg           string
+	Decisions     []int64
+	NewWork       [][]int64
+	Steps         int64
+	Violations    []Violation
+	Known         []Violation
+	Discharged    int // assertion obligations proven (unsat)
+	Trivial       int // assertion obligations true on a concrete condition
+	UnknownQ      int // assertion queries that came back unknown
+	Reach         []string
+	Witness       *Witness
+	NDraws        int
+	Infeasible    int // decision alternatives proven infeasible
+	DomainDecided int // decisions settled by byte-domain propagation
+	DomainAudited int // of those, re-decided by the solver (agreeing)
 }
 
 type pathState struct {
@@ -83,6 +85,10 @@ type pathState struct {
 	shared     map[*value]bool
 	sharedMaps map[*omap]bool
 	monitorOn  bool
+	cached     map[*value]bool
+	cachedMaps map[*omap]bool
+	dom        map[*smt.Term]*byteDom
+	multi      bool
 }
 
 func (p *pathState) prefixCopyWith(v int64) []int64 {
@@ -100,6 +106,9 @@ func (i *interpreter) assertPC(t *smt.Term) {
 	p := i.p
 	p.pc = append(p.pc, t)
 	i.noteLits(t)
+	if i.cfg.ByteDomains {
+		i.domAssert(t)
+	}
 	i.sess.Assert(t)
 }
 
@@ -153,8 +162,27 @@ func (i *interpreter) decideBool(c *smt.Term) bool {
 		choice = p.prefix[d] == 1
 	} else {
 		i.checkBudget()
-		rT, _ := i.sess.Check([]*smt.Term{c}, nil)
-		if rT == smt.Unsat {
+		dv := i.domDecide(c)
+		if dv != 0 {
+			p.res.DomainDecided++
+			if i.cfg.DomainAudit > 0 && (p.res.DomainDecided+len(p.decisions))%i.cfg.DomainAudit == 0 {
+				i.auditDomain(c, dv)
+			}
+		}
+		switch dv {
+		case 1:
+			p.res.Infeasible++
+			choice = true
+		case 2:
+			p.res.Infeasible++
+			choice = false
+		case 3:
+			choice = true
+			p.newWork = append(p.newWork, p.prefixCopyWith(0))
+		}
+		if dv != 0 {
+			// decided without the solver
+		} else if rT, _ := i.sess.Check([]*smt.Term{c}, nil); rT == smt.Unsat {
 			p.res.Infeasible++
 			choice = false
 		} else {
@@ -176,6 +204,25 @@ func (i *interpreter) decideBool(c *smt.Term) bool {
 		i.assertPC(i.tb.Not(c))
 	}
 	return choice
+}
+
+// auditDomain re-decides a byte-domain verdict with the SMT solver.
+func (i *interpreter) auditDomain(c *smt.Term, dv int) {
+	rT, _ := i.sess.Check([]*smt.Term{c}, nil)
+	rF, _ := i.sess.Check([]*smt.Term{i.tb.Not(c)}, nil)
+	i.p.res.DomainAudited++
+	ok := true
+	switch dv {
+	case 1:
+		ok = rF != smt.Sat && rT != smt.Unsat
+	case 2:
+		ok = rT != smt.Sat && rF != smt.Unsat
+	case 3:
+		ok = rT != smt.Unsat && rF != smt.Unsat
+	}
+	if !ok {
+		panic(abortPath{"unsupported", "byte-domain verdict disagrees with the solver on " + c.String()})
+	}
 }
 
 // truth returns the truth value of a bool-valued value, deciding if symbolic.
@@ -685,6 +732,7 @@ func isBasicType(t types.Type) bool {
 func (i *interpreter) RunPath(fn *ssa.Function, prefix []int64, wantWitness bool) (res *PathResult) {
 	if i.tb.Size() > 400000 {
 		i.tb = smt.NewTable()
+		i.varMemo = map[int]*smt.Term{}
 		i.tabCache = map[string][]uint64{}
 		i.sess.Close()
 		sess, err := smt.NewSession(i.tb, i.cfg.SolverArgv, i.cfg.QueryTimeoutMs)
@@ -698,7 +746,7 @@ func (i *interpreter) RunPath(fn *ssa.Function, prefix []int64, wantWitness bool
 	}
 	i.resetVolatile()
 	res = &PathResult{}
-	i.p = &pathState{prefix: prefix, pcset: map[int]bool{}, reach: map[string]bool{}, res: res}
+	i.p = &pathState{prefix: prefix, pcset: map[int]bool{}, reach: map[string]bool{}, res: res, dom: map[*smt.Term]*byteDom{}}
 	i.depth = 0
 	i.sched = newScheduler(i)
 	defer func() {
